@@ -47,8 +47,18 @@ type memLog struct {
 	on    bool
 }
 
+// notConnectedLogged: the client under test logged that a broker worker or refresh gave up on a broker because of
+// ErrNotConnected (sarama's own report of the Broker.Open race, see KF-C15-open-race). Observation only.
+var notConnectedLogged bool
+
 func (m *memLog) add(s string) {
+	if !notConnectedLogged && strings.Contains(s, "because kafka: broker not connected") {
+		notConnectedLogged = true
+	}
 	if m.on {
+		if R != nil && R.k != nil {
+			s = fmt.Sprintf("%d %s", R.k.nowUs(), s)
+		}
 		m.lines = append(m.lines, s)
 	}
 }
@@ -75,6 +85,7 @@ type run struct {
 	closeNow  chan struct{} // closed when the case's close-at(k) point is reached (C12)
 	closeOnce sync.Once
 	classify  func() string // history facts attached to violations that carry no class of their own
+	extraClass func() string // history facts attached to every violation at the moment it is recorded
 	finalClass func(v *cf.Violation) // last look at each violation when the whole history is known
 }
 
@@ -92,6 +103,14 @@ func (r *run) violate(rule, format string, a ...any) {
 		if r.classify != nil {
 			v.Class = r.classify()
 		}
+		if r.extraClass != nil {
+			if t := r.extraClass(); t != "" && !strings.Contains(v.Class, t) {
+				if v.Class != "" {
+					v.Class += ","
+				}
+				v.Class += t
+			}
+		}
 		r.viol = append(r.viol, v)
 	}
 	r.k.logf("VIOLATION %s %s", rule, d)
@@ -100,6 +119,14 @@ func (r *run) violateClass(rule, class, format string, a ...any) {
 	n := len(r.viol)
 	r.violate(rule, format, a...)
 	if len(r.viol) > n {
+		if r.extraClass != nil {
+			if t := r.extraClass(); t != "" && !strings.Contains(class, t) {
+				if class != "" {
+					class += ","
+				}
+				class += t
+			}
+		}
 		r.viol[len(r.viol)-1].Class = class
 	}
 }
